@@ -344,7 +344,9 @@ def pool_lines(ctx, tier, wanted, cov):
                 # ops of other parts whose expected answer is the bit-exact behaviour of the generic C on inputs outside the
                 # routine's value contract (redc with an arbitrary inverse limb) are not kernel-equivalence questions: this
                 # part has its own contract-respecting k_redc_1 lines
-                if ln.split(" ", 1)[0] in wanted and ln.split(" ", 1)[0] not in ("mpn_redc_1", "mpn_redc_2", "mpn_redc_n"): lines.append(ln); n += 1
+                opn = ln.split(" ", 1)[0]
+                if opn == "mpn_rsh_divrem_hensel_qr_1_2" and ln.split(" ")[1].count(",") < 2: continue   # the assembly versions need n >= 3 (every shipped table keeps the threshold >= 3: clause of Valid)
+                if opn in wanted and opn not in ("mpn_redc_1", "mpn_redc_2", "mpn_redc_n"): lines.append(ln); n += 1
                 if time.time() - tg > (40 if tier == "quick" else 300): break
             srcs["props." + name] = n
         except Exception as e:
